@@ -210,6 +210,22 @@ def random_base(rng, family, maxnodes):
         walk(body)
         return out
     base = {'tree': [root], 'map': [], 'start': [], 'stop': [], 'active': False, 'ras': False, 'gs': False}
+    if family == 'selfnest':
+        # a self-containing one-to-many entry on an internal node plus 0-2 entries (remove / replace / splice) below it
+        internal = [t for t in terms if any(t['b'])]
+        if internal:
+            k = rng.choice(internal)
+            shape = rng.choice(['fk', 'kf', 'fkf', 'k', 'kk'])
+            base['map'].append({'key': [k], 'typ': 'tuple', 'val': [T.with_o(k) if ch == 'k' else fresh() for ch in shape]})
+            below = {}
+            for x in T.subterms(k)[1:]:
+                below.setdefault(T.term_key(x), x)
+            below = list(below.values())
+            for d in rng.sample(below, min(len(below), rng.choice((0, 1, 1, 2)))):
+                e = entry_for(d)
+                if not any(T.strip(v) == d for v in e['val']):      # (no second self-containing entry)
+                    base['map'].append(e)
+        return base
     if family == 'map':
         nkeys = rng.choice((0, 1, 1, 2, 2, 3))
         for k in rng.sample(terms, min(nkeys, len(terms))):
@@ -344,7 +360,14 @@ def run(ctx):
     ctx.cover['tlc_enumerated_map_cases'] = len(gen_map)
     ctx.cover['tlc_enumerated_mask_cases'] = len(gen_mask)
     if quick:
-        gen_map = ctx.rng.sample(gen_map, min(len(gen_map), 600))
+        # stratified: enumerated cases whose mapping has a self-containing tuple on an INTERNAL node with a second entry
+        # (keys below / beside it), with the self entry alone, and a random sample of the rest
+        selfint = [b for b in gen_map if _self_internal(b)]
+        two = [b for b in selfint if len(b['map']) > 1]
+        one = [b for b in selfint if len(b['map']) == 1]
+        rest = [b for b in gen_map if not _self_internal(b)]
+        gen_map = (ctx.rng.sample(two, min(len(two), 220)) + ctx.rng.sample(one, min(len(one), 80)) +
+                   ctx.rng.sample(rest, min(len(rest), 400)))
         gen_mask = ctx.rng.sample(gen_mask, min(len(gen_mask), 400))
     else:
         gen_map = ctx.rng.sample(gen_map, min(len(gen_map), 8000))
@@ -353,8 +376,8 @@ def run(ctx):
     # ... plus seeded random larger cases over the same vocabulary (all kinds, windows of 3, 3 keys)
     nrand = 300 if quick else 6000
     for i in range(nrand):
-        fam = 'map' if i % 5 < 3 else 'mask'
-        bases.append((fam, random_base(ctx.rng, fam, 5 if i % 2 else 8), 'rand'))
+        fam = ('map', 'selfnest', 'map', 'mask', 'mask')[i % 5]
+        bases.append(('map' if fam == 'selfnest' else fam, random_base(ctx.rng, fam, 5 if i % 2 else 8), 'rand'))
     cases, meta = [], []
     for i, (fam, b, src) in enumerate(bases):
         for cls in (('T', 'N') if fam == 'map' else ('M', 'NM')):
@@ -372,14 +395,35 @@ def run(ctx):
         'IR nodes compare structurally (frozen dataclasses): a mapping key denotes every equal node (duplicates)',
         'replacement nodes are fresh (share no sub-term with the tree) except: the key inside its own tuple, a relabelled '
         'copy of the key, a wrapper around a window (NestedTransformer only) - so that "is the replacement revisited" cannot matter',
-        'skipped as under-specified (Legal): keys below a self-containing key, overlapping windows, start/stop nodes that are keys, '
+        'skipped as under-specified (Legal): overlapping windows, start/stop nodes that are keys, '
         'start and stop sharing a node, mapped nodes met while a masked transformer is switched off, partially vanishing '
         'MultiConditional branches under NestedMaskedTransformer, NestedTransformer images that collide with a key',
         'OriginalUntouched is required below scoped nodes only with rebuild_scopes=True (documented: scoped nodes are updated in place otherwise)',
-        'RebuiltCoversOriginal is required for kept nodes of Transformer / NestedTransformer without inplace',
+        'RebuiltCoversOriginal is required for kept nodes of Transformer / NestedTransformer without inplace; a key inside its own '
+        'one-to-many handle is the node itself rebuilt with its children transformed: it and its sub-tree count as kept',
+        'without inplace every image of an original node is a new object (NoShare), scoped nodes excepted unless rebuild_scopes',
         'universe: TLC-enumerated trees with <= 2 (quick) / 3 (thorough) nodes below the root over {Comment, Loop, Associate, Conditional}, '
         '<= 2 mapping entries, all replacement shapes; seeded random trees <= 8 nodes over all 7 kinds, <= 3 keys + a window',
     ]
+
+
+def _self_entries(base):
+    return [e for e in base['map'] if len(e['key']) == 1 and e['typ'] == 'tuple' and e['key'][0]['b']
+            and any(T.strip(v) == e['key'][0] for v in e['val'])]
+
+
+def _self_internal(base):
+    return bool(_self_entries(base))
+
+
+def _keys_below_self(base):
+    """Is some other key a proper sub-term of a self-containing internal key?"""
+    keys = [T.term_key(k) for e in base['map'] for k in e['key']]
+    for e in _self_entries(base):
+        below = {T.term_key(x) for x in T.subterms(e['key'][0])[1:]}
+        if below & set(keys):
+            return True
+    return False
 
 
 def _has_kind(n, k):
@@ -405,6 +449,8 @@ def _report(ctx, cases, meta, verdicts):
             cnt['judged_with_window'] += 1
         if any(v for e in case['map'] for v in _val_abs(e) if v == 'self'):
             cnt['judged_with_self_tuple'] += 1
+        if case['cls'] == 'T' and _self_internal(case):
+            cnt['judged_T_self_internal_keys_below' if _keys_below_self(case) else 'judged_T_self_internal_no_keys_below'] += 1
         if case['entry'] == 'tuple':
             cnt['judged_tuple_entry'] += 1
         if m['share']:
@@ -427,6 +473,8 @@ def _report(ctx, cases, meta, verdicts):
     ctx.cover.update({k: v for k, v in cnt.items()})
     ctx.cover['judged_per_class_mode'] = {'/'.join(k): v for k, v in sorted(percls.items())}
     ctx.cover['violation_groups'] = {renamed.get(k, k): len(v) for k, v in groups.items()}
+    if not ctx.replay and min(cnt['judged_T_self_internal_keys_below'], cnt['judged_T_self_internal_no_keys_below']) < 20:
+        raise MachineryError('vacuity: self-containing keys on internal nodes (with / without keys below) are not exercised')
     if cnt['judged'] < 0.3 * len(cases):
         raise MachineryError(f"vacuity: only {cnt['judged']} of {len(cases)} cases are legal inputs")
     for i in (0, len(cases) // 2, len(cases) - 1):
